@@ -21,6 +21,8 @@ fn c05_same_rotation(q: Quaternion<R>, v: Vector3<R>) {
     vassert_eq("from_quaternion", *b3b.as_ref(), m3);
     vassert_eq("basis3 as matrix", Matrix3::from(b3), m3);
     vassert_eq("m4*(v,0)", (m4 * v.extend(R(0.0))).truncate(), want);
+    vassert_eq("m4.transform_vector", Transform::<Point3<R>>::transform_vector(&m4, v), want);
+    vassert_eq("m3.transform_vector", Transform::<Point3<R>>::transform_vector(&m3, v), want);
     vassert_eq("m4 = embed m3", m4, Matrix4::from(m3));
     let p = Point3::new(v.x, v.y, v.z);
     vassert_eq("basis3.rotate_point", b3.rotate_point(p), Point3::from_vec(want));
